@@ -319,8 +319,9 @@ class YAMLSpecification(Specification):
         try:
             for step in self.study:
                 # validate step against json schema
+                name = step.get("name") if isinstance(step, dict) else None
                 YAMLSpecification.validate_schema(
-                    "study step '{}'".format(step["name"]),
+                    "study step '{}'".format(name),
                     step,
                     schema,
                 )
